@@ -66,6 +66,8 @@ def judge(rep, descs, cases, out) -> None:
             if w in ("absent", "null") or not p["valid"][i] or w == "f10":
                 continue
             r = rr[w]
+            if r.get("enc_raise"):
+                continue      # the encoder raised: C02's business (round trip), no statement about the three states
             if r["dec"] == "ok" and (r["py"] == "Unset" or not r.get("enc_present")):
                 rep.violate(f"C10/present-value-becomes-absent/{sig}/{w}", f"present value {json.dumps(codec.WIRE[w])} reads back as {r['py']} and is "
                             f"{'not ' if not r.get('enc_present') else ''}transmitted", d=d, w=w, observed=r, schema=codec.schema_of(d))
